@@ -330,6 +330,13 @@ def gen_edit_lists(ctx):
         s_ = sum(len(x) for x in lines[:li])
         e_ = s_ + (len(lines[li]) if li < len(lines) and rng.random() < 0.6 else 0)
         res.append((src, [(s_, e_, rng.choice([b"", b"X\n", b"p\nq\n"]))], 0, "zero-context"))
+    # many insertions at one point, supplied after a later edit (so validate has to sort): the order given must be kept,
+    # which only a STABLE sort guarantees (Go's unstable sort is insertion sort below 12 elements, hence 14..40 here)
+    for i in range(6 if ctx.tier == "quick" else 60):
+        src = gen_text(rng, "ascii", rng.choice([2, 4, 8])) + b"tail\n"
+        p_ = rng.randrange(0, len(src) - 4)
+        ins = [(p_, p_, bytes([65 + (j * 7 + i) % 26, 48 + j % 10])) for j in range(rng.randrange(14, 41))]
+        res.append((src, [(len(src) - 2, len(src) - 1, b"Z")] + ins, 3, "same-point-many"))
     # insertions at the same point (order provided must be kept)
     res.append((b"ab\n", [(1, 1, b"X"), (1, 1, b"Y")], 3, "same-point"))
     res.append((b"ab\n", [(1, 1, b"Y"), (1, 1, b"X")], 3, "same-point"))
